@@ -9,3 +9,12 @@ pub assume_specification[i32::unsigned_abs](x: i32) -> (r: u32) ensures r as int
 pub assume_specification[i64::unsigned_abs](x: i64) -> (r: u64) ensures r as int == spec_abs(x as int);
 pub assume_specification[i32::abs](x: i32) -> (r: i32) requires x != i32::MIN, ensures r as int == spec_abs(x as int);
 pub assume_specification[i64::abs](x: i64) -> (r: i64) requires x != i64::MIN, ensures r as int == spec_abs(x as int);
+// char classification (exact std semantics for the ASCII classes)
+pub open spec fn spec_ascii_alphabetic(c: char) -> bool { ('a' <= c && c <= 'z') || ('A' <= c && c <= 'Z') }
+pub open spec fn spec_ascii_digit(c: char) -> bool { '0' <= c && c <= '9' }
+pub open spec fn spec_ascii_alphanumeric(c: char) -> bool { spec_ascii_alphabetic(c) || spec_ascii_digit(c) }
+pub open spec fn spec_ascii_whitespace(c: char) -> bool { c == ' ' || c == '\t' || c == '\n' || c == '\x0C' || c == '\r' }
+pub assume_specification[char::is_ascii_alphabetic](c: &char) -> (r: bool) ensures r == spec_ascii_alphabetic(*c);
+pub assume_specification[char::is_ascii_digit](c: &char) -> (r: bool) ensures r == spec_ascii_digit(*c);
+pub assume_specification[char::is_ascii_alphanumeric](c: &char) -> (r: bool) ensures r == spec_ascii_alphanumeric(*c);
+pub assume_specification[char::is_ascii_whitespace](c: &char) -> (r: bool) ensures r == spec_ascii_whitespace(*c);
